@@ -113,16 +113,13 @@ class Ctx:
             print('[core %.1fs]' % (time.time() - self.t0), *a, file=sys.stderr)
 
     def _gc(self):
+        """Drop cache entries that have not been used for 3 hours (never a live one: entries are touched on use)."""
+        now = time.time()
         try:
-            ents = [(os.path.getmtime(os.path.join(CACHE_ROOT, e)), e) for e in os.listdir(CACHE_ROOT)
-                    if os.path.isdir(os.path.join(CACHE_ROOT, e))]
-        except OSError:
-            return
-        ents.sort(reverse=True)
-        for _, e in ents[6:]:
-            if e != self.key:
-                shutil.rmtree(os.path.join(CACHE_ROOT, e), ignore_errors=True)
-        try:
+            for e in os.listdir(CACHE_ROOT):
+                p = os.path.join(CACHE_ROOT, e)
+                if e != self.key and os.path.isdir(p) and now - os.path.getmtime(p) > 3 * 3600:
+                    shutil.rmtree(p, ignore_errors=True)
             os.utime(self.cdir, None)
         except OSError:
             pass
